@@ -85,6 +85,19 @@ func (c *cacheAPI) write(k concKey, v int) {
 	}
 }
 
+// writeSet announces version v for key k in a template set that carries two more templates of the same exporter
+// (ids k.ID+1000 and k.ID+2000, never looked up): exporters announce several templates per set, and the cache may
+// treat a set as a unit.
+func (c *cacheAPI) writeSet(k concKey, v int) {
+	ts := []*wire.Template{verTemplate(k.ID+2000, v), verTemplate(k.ID, v), verTemplate(k.ID+1000, v)}
+	b, _ := wire.EncodeFlow(c.proto, []uint32{1, 2, 3, 4}, []wire.Set{{Kind: wire.SetTemplate, Templates: ts}})
+	if c.proto == "ipfix" {
+		ipfix.NewDecoder(net.IP(k.Addr), b).Decode(c.ic)
+	} else {
+		netflow9.NewDecoder(net.IP(k.Addr), b).Decode(c.nc)
+	}
+}
+
 var dataBody = func() []byte {
 	b := make([]byte, 600)
 	for i := range b {
@@ -248,7 +261,11 @@ func concChild(a mon.Args) {
 						v := int(atomic.AddInt64(&vers[ki], 1)) // unique per key: reads identify their write
 						o.Arg = v
 						o.Call = now()
-						api.write(k, v)
+						if v%2 == 0 {
+							api.writeSet(k, v)
+						} else {
+							api.write(k, v)
+						}
 						o.Ret = now()
 					case "r":
 						o.Call = now()
@@ -882,7 +899,7 @@ func concMain(args mon.Args) {
 	if nOverlap == 0 || nConcReads == 0 {
 		run.HarnessError("no overlapping operations were observed: the workload did not produce concurrency")
 	}
-	run.SetRule("race-detector build of the harness+vflow; per history 4-32 goroutines (writer-, reader-, getter-, dumper-leaning roles) over 2-8 (exporter,id) keys, overlapping or disjoint, 200-2000 operations, GOMAXPROCS 2/4/16; every client call recorded {goroutine,key,op,call,return,result} from one monotonic clock: announce(v) = Decode of a template message whose field lengths encode a per-key unique version, lookup = Decode of a data set (version read off the decoded record shape) or IRPC.Get, and every Dump file is loaded back with GetCache and contributes one lookup per key over the dump's interval. A further child announces 384 keys per protocol once and then, around three wall-clock second boundaries, lets 16 goroutines re-announce the SAME definitions and look them up (cache entries carry their announcement time; an unchanged re-announcement seconds later is the everyday concurrent operation no sub-second history produces). Oracles: race log (attributed by frames), child survival (a child in which no operation completes for 8 s while a goroutine is parked on a lock or channel inside cache code reports that and exits), 'observed a complete, announced definition', and porcupine linearizability per key against a register model. distinct = histories with > 50 operations")
+	run.SetRule("race-detector build of the harness+vflow; per history 4-32 goroutines (writer-, reader-, getter-, dumper-leaning roles) over 2-8 (exporter,id) keys, overlapping or disjoint, 200-2000 operations, GOMAXPROCS 2/4/16; every client call recorded {goroutine,key,op,call,return,result} from one monotonic clock: announce(v) = Decode of a template message (every second one a set of three templates of that exporter) whose field lengths encode a per-key unique version, lookup = Decode of a data set (version read off the decoded record shape) or IRPC.Get, and every Dump file is loaded back with GetCache and contributes one lookup per key over the dump's interval. A further child announces 384 keys per protocol once and then, around three wall-clock second boundaries, lets 16 goroutines re-announce the SAME definitions and look them up (cache entries carry their announcement time; an unchanged re-announcement seconds later is the everyday concurrent operation no sub-second history produces). Oracles: race log (attributed by frames), child survival (a child in which no operation completes for 8 s while a goroutine is parked on a lock or channel inside cache code reports that and exits), 'observed a complete, announced definition', and porcupine linearizability per key against a register model. distinct = histories with > 50 operations")
 	run.Assume("only schedules that occurred are judged; the race detector makes the locking discipline itself observable beyond them")
 	run.Finish()
 }
